@@ -11,6 +11,7 @@ import IpcModel.Timed
 import IpcModel.Async
 import IpcModel.Shm
 import IpcModel.Bounds
+import IpcModel.OneShot
 /-! Line-protocol driver: one request per line on stdin, one canonical answer per line on stdout.
 Imports model files only (no Mathlib/Std), so it links as a native executable. -/
 open Frag
@@ -554,6 +555,30 @@ def cmdBounds (toks : List String) : String :=
     | .viol v => s!"violation:{repr v}"
   | _, _, _ => "bad-request"
 
+/-! ### one-shot servers (C08) -/
+def parseOneShotOp : List String → Option OneShot.Op
+  | ["new", k] => k.toNat?.map .new
+  | ["connect", n] => n.toNat?.map .connect
+  | ["csend", c, t] => match c.toNat?, t.toNat? with | some a, some b => some (.csend a b) | _, _ => none
+  | ["cclose", c] => c.toNat?.map .cclose
+  | ["accept", s] => s.toNat?.map .accept
+  | ["dropsrv", s] => s.toNat?.map .dropServer
+  | ["recv", c] => c.toNat?.map .recv
+  | ["droprx", c] => c.toNat?.map .dropRx
+  | _ => none
+
+def oneShotResText : OneShot.Res → String
+  | .server s _ => s!"server:{s}" | .conn c => s!"conn:{c}" | .ok => "ok" | .err => "err"
+  | .accepted c t => s!"accepted:{c}:{t}" | .msg t => s!"msg:{t}" | .empty => "empty" | .disc => "disc"
+  | .blocks => "blocks" | .invalid => "invalid"
+
+def cmdOneShot (toks : List String) : String :=
+  match (splitBar toks).filter (· ≠ []) |>.mapM parseOneShotOp with
+  | none => "bad-request"
+  | some ops =>
+    let r := OneShot.run ops
+    " ".intercalate (r.2.map oneShotResText) ++ s!" ; fs={OneShot.fsCount r.1} listen={OneShot.listenFds r.1} rx={OneShot.rxFds r.1}"
+
 /-- all fault patterns (ENOBUFS or not) of length k, as numbers 0 .. 2^k-1 -/
 def patOf (k m : Nat) : List Fault := (List.range k).map fun i => if (m >>> i) % 2 = 1 then .enobufs else .none
 
@@ -591,6 +616,7 @@ def answer (line : String) : String :=
   | "stream" :: rest => cmdStream rest
   | "shm" :: rest => cmdShm rest
   | "bounds" :: rest => cmdBounds rest
+  | "oneshot" :: rest => cmdOneShot rest
   | "noop" :: _ => "ok"
   | "enc" :: rest => cmdEnc rest
   | "rt" :: rest => cmdRt rest
